@@ -48,6 +48,10 @@ func (s *Server) TransactionSet(ctx context.Context, req *sdcpb.TransactionSetRe
 		case tree.RunningIntentName, tree.DefaultsIntentName, tree.ReplaceIntentName:
 			return nil, status.Errorf(codes.InvalidArgument, "intent name %q is reserved", intent.GetIntent())
 		}
+		// an intent that carries content needs a priority (0 is the absent value, the stores keep it as the lowest one)
+		if intent.GetPriority() == 0 && !intent.GetDelete() && !intent.GetOrphan() {
+			return nil, status.Errorf(codes.InvalidArgument, "missing priority of intent %q", intent.GetIntent())
+		}
 		ti, err := ds.SdcpbTransactionIntentToInternalTI(ctx, intent)
 		if err != nil {
 			return nil, err
